@@ -58,6 +58,10 @@ OBJ = {
     'sq*1e-12': ('sq', [1.0e-12 * v for v in [1.0, 2.0, -0.5, 0.3, -0.2, 0.1, -4.0]] + [1.0, -1.0, 0.5]),
     'gq*1e9': ('gq', [1.0e9 * v for v in [1.0, 2.0, 0.5, 0.3, -0.2, 0.1, 1.0, -1.0, 0.5, -6.0]]),
     'p*1e-9': ('p', [1.0e-9, 2.0e-9, -1.0e-9, 0.5e-9]),
+    # planes given by three points: their sense is fixed in the frame the points are given in (origin
+    # negative); the displacement (1 -2 3) carries both across the origin of the main frame
+    'p3x': ('p', [-0.5, 0.0, 0.0, -0.5, 1.0, 0.0, -0.5, 0.0, 1.0]),
+    'p3g': ('p', [-0.5, 0.0, 0.0, 0.0, 0.75, 0.0, 0.0, 0.0, -1.0]),
 }
 MACRO = {
     'box': lambda: c03.body_box((-1.0, 0.5, -2.0), (3.0, 0.0, 0.0), (0.0, 0.0, 2.0), (0.0, -4.0, 0.0)),
@@ -71,7 +75,7 @@ MACRO = {
                                 [(1, 2, 3), (1, 2, 4), (2, 3, 4), (3, 1, 4)]),
 }
 OBJ_KINDS = ['px', 'p', 's', 'c/x', 'cz', 'kx+', 'kx-', 'k/y', 'k/z+', 'tz', 'tze', 'tx', 'gq', 'sq',
-             'rpp', 'rcc', 'gq*1e-12', 'sq*1e-12', 'gq*1e9', 'p*1e-9'] + sorted(MACRO)
+             'rpp', 'rcc', 'gq*1e-12', 'sq*1e-12', 'gq*1e9', 'p*1e-9', 'p3x', 'p3g'] + sorted(MACRO)
 
 DISPL = [(0.0, 0.0, 0.0), (1.0, -2.0, 3.0)]
 _PERMS = refsem.signed_permutations()
@@ -82,7 +86,12 @@ ROTS = ([('I', np.eye(3))] + [('perm%d' % i, M) for i, M in enumerate(_PERMS) if
            ('tilt0.2d', refsem.rotation([1, -1, 0.3], 0.2))]
         + [('z30', refsem.rotation([0, 0, 1], 30.0)), ('d40', refsem.rotation([1, 1, 1], 40.0)),
            ('gen', GENERIC)])
-ROTS6 = [ROTS[0], ROTS[1], ROTS[8], ROTS[15], ROTS[-3], ROTS[-1]]
+# orientation-reversing matrices (a 9-entry matrix is applied as typed; the converter keeps the hand of the
+# third vector when it re-orthogonalises)
+MIRRORS = [('mirror-z', np.diag([1.0, 1.0, -1.0])), ('mirror-gen', GENERIC @ np.diag([1.0, -1.0, 1.0]))]
+ROTS6 = [ROTS[0], ROTS[1], ROTS[8], ROTS[15], ROTS[-3], ROTS[-1]] + MIRRORS
+ROTS = ROTS[:-1] + MIRRORS + ROTS[-1:]
+ROTD = dict(ROTS)
 
 
 def clean(x):
@@ -300,7 +309,7 @@ def abbreviate(Bflat, form):
 
 
 def b_abbrev(ch):
-    name, R = ch.choose('rot', [ROTS[-1], ROTS[-2], ROTS[-3], ROTS[1], ROTS[5], ROTS[12]])
+    name, R = ch.choose('rot', [('gen', ROTD['gen']), ('d40', ROTD['d40']), ('z30', ROTD['z30']), ROTS[1], ROTS[5], ROTS[12]])
     O = ch.choose('displ', DISPL)
     form = ch.choose('form', ABBREV_FORMS)
     star = ch.choose('star', [False, True])
